@@ -349,21 +349,32 @@ def rule_ext(repo, tier):
     f = repo.func(OPS, 'cumops_')
     env = _StmtEnvs(f)
     sizes = []
+    p0, dimname = f.pos_params[0], f.pos_params[1]
+    want = '%s.shape[%s]' % (p0, dimname)
+
+    def atoms_of(v, out):
+        """outermost size expressions only: an extent written as input.shape[<normalised dim>] is ONE extent, whatever its index contains"""
+        if isinstance(v, ast.Subscript) and isinstance(v.value, ast.Attribute) and v.value.attr == 'shape':
+            if dotted(v.value.value) == p0 and dimname in {n.id for n in ast.walk(v.slice) if isinstance(n, ast.Name)}:
+                out.add(want)
+            else:
+                out.add(src(v).replace(' ', ''))
+            return
+        if isinstance(v, ast.Call) and (dotted(v.func) == 'len' or (isinstance(v.func, ast.Attribute) and v.func.attr in ('size', 'numel'))):
+            if isinstance(v.func, ast.Attribute) and v.func.attr == 'size' and dotted(v.func.value) == p0 and len(v.args) == 1 and \
+                    dimname in {n.id for n in ast.walk(v.args[0]) if isinstance(n, ast.Name)}:
+                out.add(want)
+            else:
+                out.add(src(v).replace(' ', ''))
+            return
+        for ch in ast.iter_child_nodes(v):
+            atoms_of(ch, out)
     for c, bounds in int_range_sites(f):
         atoms = set()
         for b in bounds:
-            v = env.value_at(c, b)
-            for n in ast.walk(v):
-                if isinstance(n, ast.Subscript) and isinstance(n.value, ast.Attribute) and n.value.attr == 'shape':
-                    atoms.add(src(n).replace(' ', ''))
-                if isinstance(n, ast.Call) and dotted(n.func) == 'len':
-                    atoms.add(src(n).replace(' ', ''))
-                if isinstance(n, ast.Call) and isinstance(n.func, ast.Attribute) and n.func.attr in ('size', 'numel'):
-                    atoms.add(src(n).replace(' ', ''))
+            atoms_of(env.value_at(c, b), atoms)
         sizes.append((c, atoms))
         res.inst({'function': f.fq, 'site': src(c)[:60], 'extent_atoms': sorted(atoms)}, norm_construct(c, f.node))
-    dimname = f.pos_params[1]
-    want = '%s.shape[%s]' % (f.pos_params[0], dimname)
     allatoms = set().union(*[a for _, a in sizes]) if sizes else set()
     if len(allatoms) > 1 or (allatoms and want not in allatoms):
         res.add(Finding('C12.EXT', f, 'the stride schedule and the index ranges of cumops_ are bounded by different extents %s; both must follow '
